@@ -1549,3 +1549,25 @@ Proof.
   intros d. unfold zsh_script, zsh_pieces. cbn [zg_root c_bin].
   rewrite (get_args_of_unresolved _ d None) by reflexivity. reflexivity.
 Qed.
+
+(** round 4: the value name of an option spec: every line of an option that requires a value carries [:vn:] followed by the
+    value completion, [vn] = the FIRST value name, a blank when there is none *)
+Theorem opt_line_value_name c g a ad line :
+  a_min_values a <> 0 -> In line (opt_lines c g (a, ad)) ->
+  exists val, zvalue_completion (a, ad) = Some val /\
+    In (Zx (lit ":" ++ value_name a ++ lit ":")) line /\
+    value_name a = match a_value_names a with [] => lit " " | v :: _ => v end.
+Proof.
+  intros Hm Hl.
+  assert (Hv : exists val, zvalue_completion (a, ad) = Some val).
+  { unfold zvalue_completion. cbn [fst snd]. destruct (possible_values a); [destruct (existsb _ _); eexists; reflexivity|].
+    destruct (a_get_hint a); eexists; reflexivity. }
+  destruct Hv as [val Ev]. exists val. split; [exact Ev|]. split; [|reflexivity].
+  pose proof (opt_vc_values (a, ad) val Hm Ev) as Hvc. cbn [fst] in Hvc.
+  assert (Hx' : In (Zx (lit ":" ++ value_name a ++ lit ":")) (opt_vc (a, ad))) by (eapply sublist_in; [exact Hvc|left; reflexivity]).
+  unfold ZshModel.opt_lines in Hl. apply in_app_or in Hl. destruct Hl as [Hl|Hl].
+  - destruct (get_short_and_visible_aliases (fst (a, ad))); [|destruct Hl]. apply in_map_iff in Hl.
+    destruct Hl as (s & <- & _). unfold ZshModel.opt_short_line. apply in_or_app. right. apply in_or_app. left. exact Hx'.
+  - destruct (get_long_and_visible_aliases (fst (a, ad))); [|destruct Hl]. apply in_map_iff in Hl.
+    destruct Hl as (s & <- & _). unfold ZshModel.opt_long_line. apply in_or_app. right. apply in_or_app. left. exact Hx'.
+Qed.
